@@ -95,7 +95,10 @@ def run(c):
         for z in rng.uniform(0.05, 0.95, size=4) if c["kind"] == "uniform" else rng.uniform(-1, 1, size=4):
             if c["kind"] == "truncated":
                 a = (lo - c["loc"]) / c["scale"]; b = (hi - c["loc"]) / c["scale"]
-                z = float(np.clip(z, a + 1e-3 if math.isfinite(a) else -9, b - 1e-3 if math.isfinite(b) else 9))
+                # a base point inside the (standardised) support, also when the one-sided window starts beyond +-9 sigma
+                zlo = a + 1e-3 if math.isfinite(a) else min(-9.0, b - 2.0)
+                zhi = b - 1e-3 if math.isfinite(b) else max(9.0, a + 2.0)
+                z = float(np.clip(z, zlo, zhi))
             tr = handlers.trace(handlers.substitute(rmodel, data={key + "_base": jnp.float32(z)})).get_trace()
             x = tr[key]["value"]
             lp_r = float(tr[key + "_base"]["fn"].log_prob(tr[key + "_base"]["value"]))
